@@ -33,7 +33,8 @@ def _strip_doc(body):
 
 
 def _fp(nodes):
-    return hashlib.sha1("\n".join(ast.dump(n, annotate_fields=False) for n in nodes).encode()).hexdigest()[:16]
+    # `ast.unparse` (normalised source text) rather than `ast.dump`: node fields differ between Python versions
+    return hashlib.sha1("\n".join(ast.unparse(n) for n in nodes).encode()).hexdigest()[:16]
 
 
 def compute(repo=None):
@@ -75,8 +76,10 @@ def changed(repo=None):
         frozen = json.load(open(FROZEN))
     except (OSError, ValueError):
         return []
+    if frozen.get("__python__") != "%d.%d" % sys.version_info[:2]:
+        return []   # frozen by another interpreter version: the normal forms may differ, so no statement is made
     cur = compute(repo)
-    return sorted(k for k in set(frozen) | set(cur) if frozen.get(k) != cur.get(k))
+    return sorted(k for k in (set(frozen) | set(cur)) - {"__python__"} if frozen.get(k) != cur.get(k))
 
 
 def relevant_names(prop):
@@ -123,7 +126,9 @@ def changed_for(prop, repo=None):
 
 if __name__ == "__main__":
     if "--freeze" in sys.argv:
-        json.dump(compute(), open(FROZEN, "w"), indent=0, sort_keys=True)
+        fp = compute()
+        fp["__python__"] = "%d.%d" % sys.version_info[:2]
+        json.dump(fp, open(FROZEN, "w"), indent=0, sort_keys=True)
         print("frozen", len(json.load(open(FROZEN))), "fingerprints of", common.REPO)
     else:
         for prop in sys.argv[1:] or []:
